@@ -234,6 +234,8 @@ def run(cx):
     log_lookup_siblings(cx, "C15.i")
     from props.shared import resend_ref_in_own_frame
     resend_ref_in_own_frame(cx, "C15.j")
+    from props.shared import resend_refs_untouched
+    resend_refs_untouched(cx, "C15.q")
     group_width(cx, "C15.k")
     # a genuine acknowledgement of one frame must mark exactly the fragments that frame carried: the flag word/bit
     # written by acknowledge_fragment is the one fragment_acknowledged reads
